@@ -830,16 +830,23 @@ def cmp_c14(case, i, m):
         return ("~model-error", "model driver rejected the case: " + m["error"])
     if i.get("outcome") != "ok":
         return ("impl-" + str(i.get("outcome")), f"real code gave {i.get('outcome')}: {str(i.get('err'))[:200]}")
-    for t in case["targets"]:
+    kids = case.get("kids") or {}
+    for t in case.get("reported") or case["targets"]:
         real = i["byFocus"].get(t)
         exp = m["byFocus"][t]
         if real is None:
             return ("missing-result", f"node {t} is not reported at all")
         if real["location"] != exp:
             return ("result-location", f"node {t}: result location {real['location']} but its lexical entry says {exp}")
-        for tl in real["traceLocations"]:
-            if tl != exp:
-                return ("trace-location", f"node {t}: trace location {tl} but its lexical entry says {exp}")
+        comps = real.get("traceComponents") or [None] * len(real["traceLocations"])
+        for tl, comp in zip(real["traceLocations"], comps):
+            about, want = t, exp
+            if comp == "rego" and t in kids:     # the embedded-Rego constraint designated another node ($traceNode)
+                about, want = kids[t], m["byFocus"][kids[t]]
+            if tl != want:
+                return ("trace-location", f"result about {t}: the trace of `{comp}` is about node {about} and carries location {tl}, but that node's lexical entry says {want}")
+        if kids and sorted(c for c in comps if c) != ["pattern", "rego"]:
+            return ("~trace-shape", f"result about {t}: expected one pattern and one rego trace, got {comps}")
     if not i.get("sameWithoutMaps"):
         return ("maps-change-results", "results with and without source maps differ in more than the location")
     return None
@@ -861,7 +868,7 @@ def check_C14(ctx):
     except Broken as b:
         broken.append(b)
     ctx.coverage["rule"] = ("1..6 target nodes; per node a node-level lexical entry, a property-level entry only, both, or none; ranges with magnitudes 0, <10, <1e5, ~2^53 and up to 30 digits; 0..3 additional "
-                            "source files listing random subsets of the nodes (a node may be listed by several); data without any source maps; also checked: the same graph without source maps gives identical results minus locations")
+                            "source files listing random subsets of the nodes (a node may be listed by several); data without any source maps; one case in three uses a failure branch of two constraints (or / if-then, both operand orders) one of which is embedded Rego that designates ANOTHER node ($traceNode) with its own entry and file; also checked: the same graph without source maps gives identical results minus locations")
     ctx.assumptions += ["regex.find_n and to_number of the engine are modelled by digitRuns/readNat (tied by this correspondence, including 30-digit numbers)"]
     return conclude(ctx, broken, trusted=TRUST_COMMON)
 
